@@ -157,7 +157,8 @@ func checksWithTagPrefix(prefix string, checks api.HealthChecks) api.HealthCheck
 			continue
 		}
 		for _, t := range c.ServiceTags {
-			if strings.HasPrefix(t, prefix) {
+			// routecmd.build ignores white space around a tag
+			if strings.HasPrefix(strings.TrimSpace(t), prefix) {
 				checksWithPrefix = append(checksWithPrefix, c)
 				break
 			}
